@@ -699,6 +699,13 @@ def canon_callee(callee: str) -> str:
     """canonical, generics-free name of a callee as printed in a call terminator.
     `<T as Trait>::m` becomes `<T' as Trait'>::m` with T', Trait' stripped of generics."""
     c = callee.strip()
+    # `map_ref::<impl map::HashMap<K, V, S>>::pin`  ->  `map_ref::HashMap::pin`
+    k = c.find('<impl ')
+    while k >= 0:
+        e = _match_angle(c, k)
+        inner = strip_generics(c[k + 6:e].strip()).lstrip('&').strip()
+        c = c[:k] + inner.split('::')[-1] + c[e + 1:]
+        k = c.find('<impl ')
     if c.startswith('<'):
         e = _match_angle(c, 0)
         inner = c[1:e]
